@@ -36,6 +36,10 @@ structure Fixes where
   /-- the project has a git config with `core.excludesFile`: discovered at the origin, it overrides
       (removes) the global git excludes — `skip_git_global_excludes` in dirs.rs -/
   gitCfg : Bool := false
+  /-- the project origin carries the marker of the VCS its ignore files belong to (`.git`). Without it the project's own
+      `.gitignore` is still read (and still removed by --no-vcs-ignore), but the GLOBAL git excludes do not apply: dirs.rs keeps a
+      global VCS ignore file only for a VCS detected at the origin -/
+  vcs : Bool := true
 
 /-- the list handed to the ignore-files filterer -/
 def assemble (cfg : Fixes) (f0 : Flags) : List Src :=
@@ -45,7 +49,7 @@ def assemble (cfg : Fixes) (f0 : Flags) : List Src :=
   let l : List Src := if f.noProject then [] else
     [.explicitViaOrigin, .projectVcs, .projectPlain] ++ (if cfg.gitCfg then [.gitConfigExcludes] else [])
   let skipGlobalGit := cfg.gitCfg && !f.noProject
-  let l := l ++ (if f.noGlobal then [] else (if skipGlobalGit then [] else [.globalVcs]) ++ [.globalPlain])
+  let l := l ++ (if f.noGlobal then [] else (if skipGlobalGit || !cfg.vcs then [] else [.globalVcs]) ++ [.globalPlain])
   let l := if cfg.f9 then l else l ++ [.explicitTail]
   let l := if f.noProject then l.filter (fun s => !s.inOrigin) else l
   let l := if f.noGlobal then l.filter (fun s => s.appliesInSome) else l
@@ -56,14 +60,14 @@ def explicitHonoured (l : List Src) : Bool := l.contains .explicitViaOrigin || l
 
 /-- repaired: under all 64 flag combinations the explicit file is in the list -/
 theorem c12_explicit_always :
-    ∀ a b c d e g : Bool, explicitHonoured (assemble ⟨true, false⟩ ⟨a, b, c, d, e, g⟩) = true ∧
-      explicitHonoured (assemble ⟨true, true⟩ ⟨a, b, c, d, e, g⟩) = true := by decide
+    ∀ a b c d e g : Bool, explicitHonoured (assemble ⟨true, false, true⟩ ⟨a, b, c, d, e, g⟩) = true ∧
+      explicitHonoured (assemble ⟨true, true, true⟩ ⟨a, b, c, d, e, g⟩) = true := by decide
 
 /-- and the flags still do what they say: no discovered project file with --no-project-ignore, etc. -/
 theorem c12_flags_effective :
     ∀ a b c d e g : Bool,
     ∀ gc : Bool,
-      let l := assemble ⟨true, gc⟩ ⟨a, b, c, d, e, g⟩
+      let l := assemble ⟨true, gc, true⟩ ⟨a, b, c, d, e, g⟩
       let f := (Flags.mk a b c d e g).norm
       (f.noProject → ¬ l.contains .projectVcs ∧ ¬ l.contains .projectPlain) ∧
       (f.noGlobal → ¬ l.contains .globalVcs ∧ ¬ l.contains .globalPlain ∧ ¬ l.contains .gitConfigExcludes) ∧
@@ -76,7 +80,7 @@ def lost (cfg : Fixes) : Nat :=
     !explicitHonoured (assemble cfg ⟨n.testBit 0, n.testBit 1, n.testBit 2, n.testBit 3, n.testBit 4, n.testBit 5⟩))).length
 
 theorem c12_today_52 : lost {} = 52 := by decide
-theorem c12_fixed_0 : lost ⟨true, false⟩ = 0 ∧ lost ⟨true, true⟩ = 0 := by decide
+theorem c12_fixed_0 : lost ⟨true, false, true⟩ = 0 ∧ lost ⟨true, true, true⟩ = 0 := by decide
 
 /-! ### the whole filterer configuration, and exactness -/
 
@@ -96,17 +100,27 @@ def discovered : List Src := [.projectVcs, .projectPlain, .globalVcs, .globalPla
 /-- **exact removal**: a discovered source reaches the filterer iff no set flag names it — all 64 combinations -/
 theorem c12_exact :
     ∀ a b c d e g : Bool, ∀ s ∈ discovered,
-      (assemble ⟨true, false⟩ ⟨a, b, c, d, e, g⟩).contains s = !removedBy ⟨a, b, c, d, e, g⟩ s := by decide
+      (assemble ⟨true, false, true⟩ ⟨a, b, c, d, e, g⟩).contains s = !removedBy ⟨a, b, c, d, e, g⟩ s := by decide
 
 /-- with a project-level `core.excludesFile`: it is itself removed exactly by the flags that name it, and it
     replaces the global git excludes whenever the project's git config is read at all -/
 theorem c12_exact_gitcfg :
     ∀ a b c d e g : Bool,
       let f : Flags := ⟨a, b, c, d, e, g⟩
-      let l := assemble ⟨true, true⟩ f
+      let l := assemble ⟨true, true, true⟩ f
       l.contains .gitConfigExcludes = !removedBy f .gitConfigExcludes ∧
       l.contains .globalVcs = (!removedBy f .globalVcs && f.norm.noProject) ∧
       (∀ s ∈ [Src.projectVcs, .projectPlain, .globalPlain], l.contains s = !removedBy f s) := by decide
+
+/-- a project WITHOUT a VCS marker that ships VCS ignore files (a source tarball): its own files are removed exactly by the
+    flags that name them — `--no-vcs-ignore` included — and the global VCS excludes never apply -/
+theorem c12_exact_novcs :
+    ∀ a b c d e g : Bool,
+      let f : Flags := ⟨a, b, c, d, e, g⟩
+      let l := assemble ⟨true, false, false⟩ f
+      l.contains .globalVcs = false ∧
+      (∀ s ∈ [Src.projectVcs, .projectPlain, .globalPlain], l.contains s = !removedBy f s) ∧
+      explicitHonoured l = true := by decide
 
 /-- what `WatchexecFilterer::new` builds: the ignore files above plus everything given explicitly -/
 structure Out where
@@ -126,13 +140,13 @@ def configure (cfg : Fixes) (f : Flags) : Out :=
 theorem c12_explicit_all :
     ∀ a b c d e g : Bool,
     ∀ gc : Bool,
-      let o := configure ⟨true, gc⟩ ⟨a, b, c, d, e, g⟩
+      let o := configure ⟨true, gc, true⟩ ⟨a, b, c, d, e, g⟩
       explicitHonoured o.igfiles = true ∧ o.ignorePatterns = true ∧ o.filters = true ∧ o.exts = true ∧ o.fsEvents = true ∧
       o.defaultIgnores = !(d || g) := by decide
 
 /-- a non-trivial instance: no flags -> every source present; --no-discover-ignore -> only the explicit file -/
-example : (configure ⟨true, false⟩ ⟨false, false, false, false, false, false⟩).igfiles.length = 6 := by decide
-example : (configure ⟨true, true⟩ ⟨false, false, false, false, false, false⟩).igfiles.length = 6 := by decide
-example : (configure ⟨true, false⟩ ⟨false, false, false, false, true, false⟩).igfiles = [.explicitTail] := by decide
+example : (configure ⟨true, false, true⟩ ⟨false, false, false, false, false, false⟩).igfiles.length = 6 := by decide
+example : (configure ⟨true, true, true⟩ ⟨false, false, false, false, false, false⟩).igfiles.length = 6 := by decide
+example : (configure ⟨true, false, true⟩ ⟨false, false, false, false, true, false⟩).igfiles = [.explicitTail] := by decide
 
 end C12
